@@ -165,6 +165,20 @@ def topDocsScore (s : Stats) : QTree F → F
   | .dismax qs tie => if qs.all QTree.isTerm then score s (.sum qs) one else score s (.dismax qs tie) one
   | q => score s q one
 
+/-- the state of `DisjunctionMaxCombiner` (score_combiner.rs; its shape is checked by the extractor:
+`Gen.DISMAX_COMBINER_SHAPE`) -/
+structure DisMaxState (F : Type) where
+  max : F
+  sum : F
+
+/-- `with_tie_breaker` / `clear`: `max = 0.0; sum = 0.0` -/
+def DisMaxState.init : DisMaxState F := ⟨zero, zero⟩
+/-- `update`: `self.max = Score::max(score, self.max); self.sum += score` -/
+def DisMaxState.update (st : DisMaxState F) (x : F) : DisMaxState F :=
+  { max := Arith.max x st.max, sum := add st.sum x }
+/-- `score`: `self.max + (self.sum - self.max) * self.tie_breaker` -/
+def DisMaxState.score (st : DisMaxState F) (tie : F) : F := add st.max (mul (sub st.sum st.max) tie)
+
 end Formula
 
 /-! ## statistics of a segmented corpus -/
